@@ -17,6 +17,7 @@ import (
 	"strings"
 	"sync"
 	"sync/atomic"
+	"syscall"
 	"time"
 	"verif/harness/internal/sparse"
 
@@ -140,6 +141,29 @@ func NewCtx(prop, tier string) *Ctx {
 		}
 	}
 	c.Scratch = d
+	// scratch lives on a memory-backed file system: what a run that was killed
+	// left behind must not pile up. Every scratch directory names its owner;
+	// directories whose owner is gone are removed.
+	os.WriteFile(filepath.Join(d, ".pid"), []byte(strconv.Itoa(os.Getpid())), 0644)
+	if ents, err := os.ReadDir(filepath.Dir(d)); err == nil {
+		for _, e := range ents {
+			if !e.IsDir() || !strings.HasPrefix(e.Name(), "verif-") {
+				continue
+			}
+			old := filepath.Join(filepath.Dir(d), e.Name())
+			b, err := os.ReadFile(filepath.Join(old, ".pid"))
+			if err != nil {
+				continue
+			}
+			pid, err := strconv.Atoi(strings.TrimSpace(string(b)))
+			if err != nil || pid == os.Getpid() {
+				continue
+			}
+			if err := syscall.Kill(pid, 0); err == syscall.ESRCH {
+				os.RemoveAll(old)
+			}
+		}
+	}
 	c.loadFindings()
 	c.OutRoot = root
 	if repo := os.Getenv("VERIF_REPO"); (repo != "" && repo != "/repo") || os.Getenv("VERIF_TRIAL") != "" {
